@@ -75,7 +75,7 @@ Proof.
   - (* the step belongs to p *)
     destruct l; cbn [label_party] in E; subst p0; step_inv H; simp_getp;
       repeat match goal with o : out |- _ => destruct o end;
-      repeat match goal with |- context [on_out ?x _ _] => destruct x end; cbn [ctl on_out in_prop];
+      try match goal with |- context [on_out (two_party_ok ?a ?b ?c ?d) _ _] => destruct (two_party_ok a b c d) end; cbn [ctl on_out in_prop];
       try (intros []); try (intros ->);
       try (elim (NS _ eq_refl));
       match goal with
@@ -120,7 +120,7 @@ Proof.
   intros H NS. destruct (pid_cases (label_party l) q) as [E|E].
   - destruct l; cbn [label_party] in E; subst p; step_inv H; simp_getp;
       repeat match goal with o : out |- _ => destruct o end;
-      repeat match goal with |- context [on_out ?x _ _] => destruct x end; cbn [ctl on_out in_respq mc];
+      try match goal with |- context [on_out (two_party_ok ?a ?b ?c ?d) _ _] => destruct (two_party_ok a b c d) end; cbn [ctl on_out in_respq mc];
       try (intros []); try (intros ->);
       try (elim NS; reflexivity);
       match goal with
